@@ -92,33 +92,19 @@ func vc05Describe(n *vc05node, v vc05Variant, got vc05res) string {
 	return fmt.Sprintf("want %s, got %s%s", vc05show(vc05build(n)), got.String(), opt)
 }
 
-func vc05SkeletonName(n *vc05node, generic bool) string {
-	var nm func(c *vc05node, lvl int) string
-	nm = func(c *vc05node, lvl int) string {
-		if c.kind == vc05Leaf {
-			if generic {
-				return "term"
-			}
-			return c.name
-		}
-		if c.r == nil && lvl < 3 {
-			return vc05opName(c) + "-of-" + nm(c.l, lvl+1)
-		}
-		return vc05opName(c)
-	}
-	switch {
-	case n.kind == vc05Leaf:
-		return "leaf-" + n.name
-	case n.r == nil:
-		return vc05opName(n) + "-of-" + nm(n.l, 1)
-	}
-	return vc05opName(n) + "-of-" + nm(n.l, 2) + "-and-" + nm(n.r, 2)
-}
-
 func vc05IsPrefix(k int) bool { return k == vc05Not || k == vc05Must || k == vc05MustNot }
 
+// vc05Budget bounds the minimisations of one work unit (deterministically) and
+// caches their results by operator skeleton, leaf forms and variant.
+type vc05Budget struct {
+	left  int
+	cache map[string]string
+}
+
+func vc05NewBudget(n int) *vc05Budget { return &vc05Budget{left: n, cache: map[string]string{}} }
+
 // vc05Status: "" if the statement holds on (n, variant vi), else the category.
-func vc05Status(n *vc05node, vi int, budget *int) string {
+func vc05Status(n *vc05node, vi int, budget *vc05Budget) string {
 	if n.status != nil {
 		return n.status[vi]
 	}
@@ -131,11 +117,10 @@ func vc05Status(n *vc05node, vi int, budget *int) string {
 }
 
 // vc05Classify names the root cause class of a failing evaluation.  A failure is
-// attributed to a failing operand if there is one (then input == ""), otherwise
-// the tree is a minimal failing tree: the variant is minimised, the leaves are
-// replaced by plain field:value terms to see whether they matter, and the tag is
-// derived from the operator skeleton.
-func vc05Classify(n *vc05node, vi int, got vc05res, budget *int) (cat, input, detail string) {
+// attributed to a failing operand if there is one (then input == ""); otherwise
+// the variant is minimised (does the plain variant fail too?), the tree is shrunk
+// to a locally minimal failing tree and the tag is the shape of that tree.
+func vc05Classify(n *vc05node, vi int, got vc05res, budget *vc05Budget) (cat, input, detail string) {
 	v := vc05Variants[vi]
 	if got.panic != "" {
 		return "panic", vc05Text(n, v), vc05Describe(n, v, got)
@@ -147,10 +132,14 @@ func vc05Classify(n *vc05node, vi int, got vc05res, budget *int) (cat, input, de
 			}
 		}
 	}
-	if *budget <= 0 {
-		return "unminimised-" + vc05SkeletonName(n, true) + vc05VariantSuffix(v), vc05Text(n, v), vc05Describe(n, v, got)
+	key := strconv.Itoa(vi) + vc05shape(n)
+	if cat, ok := budget.cache[key]; ok {
+		return cat, "", ""
 	}
-	*budget--
+	if budget.left <= 0 {
+		return "unminimised-" + vc05kindName[n.kind], vc05Text(n, v), vc05Describe(n, v, got)
+	}
+	budget.left--
 	fails := func(t *vc05node, v vc05Variant) bool { ok, _, _ := vc05Holds(t, v); return !ok }
 	mv := v
 	base := vc05Variant{}
@@ -173,27 +162,33 @@ func vc05Classify(n *vc05node, vi int, got vc05res, budget *int) (cat, input, de
 			}
 		}
 	}
-	generic := n.depth > 0 && fails(vc05generic(n), mv)
-	name := vc05SkeletonName(n, generic)
+	m := vc05shrink(n, func(t *vc05node) bool { return fails(t, mv) })
+	name := vc05treeName(m)
 	switch {
-	case generic && mv.pm == 0 && vc05IsPrefix(n.kind) && n.l.kind == n.kind:
+	case mv.pm == 0 && vc05IsPrefix(m.kind) && m.l.kind == m.kind && vc05isGeneric(m.l.l):
 		// the same prefix operator applied twice: `NOT NOT a`, `--a`, `++a`
 		name = "nested-prefix-operators"
-	case n.kind == vc05Leaf && n.form == "list" && mv.df && mv.pm == 0:
+	case m.kind == vc05Leaf && m.form == "list" && mv.df && mv.pm == 0:
 		name = "default-field-breaks-value-list"
 		mv.df = false // keep the tag short; the message says how it was parsed
-		_, text, g := vc05Holds(n, vc05Variant{mv.pm, mv.sp, true})
-		return name + vc05VariantSuffix(mv), text, vc05Describe(n, vc05Variant{df: true}, g)
+		_, text, g := vc05Holds(m, vc05Variant{mv.pm, mv.sp, true})
+		cat = name + vc05VariantSuffix(mv)
+		budget.cache[key] = cat
+		return cat, text, vc05Describe(m, vc05Variant{df: true}, g)
+	case m.kind == vc05Leaf:
+		name = "leaf-" + name
 	}
-	_, text, g := vc05Holds(n, mv)
-	return name + vc05VariantSuffix(mv), text, vc05Describe(n, mv, g)
+	_, text, g := vc05Holds(m, mv)
+	cat = name + vc05VariantSuffix(mv)
+	budget.cache[key] = cat
+	return cat, text, vc05Describe(m, mv, g)
 }
 
 var vc05Seen sync.Map // hashes of sampled trees (for the distinct count only)
 
 // vc05CheckTree evaluates every variant on n.  With store, the per-variant status
 // is remembered in the node (only for materialised nodes, single writer).
-func vc05CheckTree(n *vc05node, a *vc05agg, budget *int, store bool, countDistinct bool) {
+func vc05CheckTree(n *vc05node, a *vc05agg, budget *vc05Budget, store bool, countDistinct bool) {
 	var texts [16]string
 	want := vc05build(n)
 	if store {
@@ -231,7 +226,7 @@ func TestVerifStandin_C05(t *testing.T) {
 	env := vc05getenv()
 	total := vc05newAgg()
 	leaves := vc05leaves()
-	core, nSample, sampleDepth := 12, 100000, 2
+	core, nSample, sampleDepth := 10, 100000, 2
 	if env.thorough {
 		core, nSample, sampleDepth = 28, 1000000, 3
 	}
@@ -247,15 +242,13 @@ func TestVerifStandin_C05(t *testing.T) {
 	}
 
 	// phase A: depth <= 1 over the full alphabet (materialised, statuses remembered)
-	bigBudget := 1 << 30
 	for _, l := range leaves {
-		vc05CheckTree(l, total, &bigBudget, true, true)
+		vc05CheckTree(l, total, vc05NewBudget(1000), true, true)
 	}
 	t1 := vc05nextLevel(leaves, leaves)
 	vc05parallel(env, total, len(t1)-len(leaves), func(u int, a *vc05agg) {
-		b := 1 << 20
 		n := t1[len(leaves)+u]
-		vc05CheckTree(n, a, &b, true, true)
+		vc05CheckTree(n, a, vc05NewBudget(1000), true, true)
 		if u%997 == 0 {
 			a.sample(vc05Text(n, vc05Variants[u%len(vc05Variants)]))
 		}
@@ -279,12 +272,12 @@ func TestVerifStandin_C05(t *testing.T) {
 	}
 	var d2trees int64
 	vc05parallel(env, total, len(t1core), func(u int, a *vc05agg) {
-		b := 400 // minimisations per unit; beyond that failures get an "unminimised-" tag
+		b := vc05NewBudget(150) // minimisations per unit; beyond that failures get an "unminimised-" tag
 		x := t1core[u]
 		cnt := int64(0)
 		if x.depth == 1 {
 			for _, op := range vc05unops {
-				vc05CheckTree(vc05un(op.kind, op.arg, x), a, &b, false, true)
+				vc05CheckTree(vc05un(op.kind, op.arg, x), a, b, false, true)
 				cnt++
 			}
 		}
@@ -294,7 +287,7 @@ func TestVerifStandin_C05(t *testing.T) {
 			}
 			for _, k := range []int{vc05And, vc05Or} {
 				n := vc05bin(k, x, y)
-				vc05CheckTree(n, a, &b, false, true)
+				vc05CheckTree(n, a, b, false, true)
 				cnt++
 				if u%53 == 7 && y == t1core[(u*31)%len(t1core)] {
 					a.sample(vc05Text(n, vc05Variants[(u/53)%len(vc05Variants)]))
@@ -309,7 +302,7 @@ func TestVerifStandin_C05(t *testing.T) {
 	var sampled int64
 	vc05parallel(env, total, (nSample+chunk-1)/chunk, func(u int, a *vc05agg) {
 		rng := rand.New(rand.NewSource(env.seed*1000003 + int64(u)))
-		b := 400
+		b := vc05NewBudget(150)
 		for i := 0; i < chunk && u*chunk+i < nSample; i++ {
 			d := 1 + rng.Intn(sampleDepth)
 			var n *vc05node
@@ -320,7 +313,7 @@ func TestVerifStandin_C05(t *testing.T) {
 				}
 			}
 			_, dup := vc05Seen.LoadOrStore(vc05hash(vc05Text(n, vc05Variants[0])), true)
-			vc05CheckTree(n, a, &b, false, !dup)
+			vc05CheckTree(n, a, b, false, !dup)
 			if i == 0 && u%7 == 0 {
 				a.sample(vc05Text(n, vc05Variants[u%len(vc05Variants)]))
 			}
@@ -492,6 +485,8 @@ func vc05opName(n *vc05node) string {
 	}
 	if (n.kind == vc05Boost || n.kind == vc05Fuzzy) && n.arg == "" {
 		s += "-default"
+	} else if (n.kind == vc05Boost || n.kind == vc05Fuzzy) && n.arg != "2" {
+		s += "-fractional"
 	}
 	return s
 }
@@ -780,6 +775,114 @@ func vc05generic(n *vc05node) *vc05node {
 	return rec(n)
 }
 
+func vc05isGeneric(n *vc05node) bool { return n.kind == vc05Leaf && n.name == "eq-generic" }
+
+// vc05replaceAt returns a copy of n in which the subtree at preorder index p is r.
+func vc05replaceAt(n *vc05node, p int, r *vc05node) *vc05node {
+	idx := 0
+	var rec func(x *vc05node) *vc05node
+	rec = func(x *vc05node) *vc05node {
+		i := idx
+		idx++
+		if i == p {
+			idx += x.nodes - 1
+			return r
+		}
+		if x.kind == vc05Leaf {
+			return x
+		}
+		c := *x
+		c.status = nil
+		c.l = rec(x.l)
+		c.depth, c.nodes = c.l.depth+1, c.l.nodes+1
+		if x.r != nil {
+			c.r = rec(x.r)
+			c.nodes += c.r.nodes
+			if c.r.depth+1 > c.depth {
+				c.depth = c.r.depth + 1
+			}
+		}
+		return &c
+	}
+	return rec(n)
+}
+
+// vc05shrink reduces a failing tree to a locally minimal failing one: subtrees are
+// replaced by plain field:value terms or by one of their own operands, boost
+// powers and fuzzy distances are normalised to 2, as long as fails() stays true.
+func vc05shrink(n *vc05node, fails func(*vc05node) bool) *vc05node {
+	g := vc05genericLeaves()
+	for step := 0; step < 300; step++ {
+		type pos struct {
+			idx int
+			x   *vc05node
+		}
+		var list []pos
+		vc05walk(n, func(idx int, x, _ *vc05node, _ int) { list = append(list, pos{idx, x}) })
+		progressed := false
+	search:
+		for _, p := range list {
+			var cands []*vc05node
+			if p.x.kind != vc05Leaf {
+				cands = append(cands, p.x.l)
+				if p.x.r != nil {
+					cands = append(cands, p.x.r)
+				}
+			}
+			if !vc05isGeneric(p.x) {
+				cands = append(cands, g[p.idx%len(g)])
+			}
+			if (p.x.kind == vc05Boost || p.x.kind == vc05Fuzzy) && p.x.arg != "2" {
+				c := *p.x
+				c.arg, c.status = "2", nil
+				cands = append(cands, &c)
+			}
+			for _, c := range cands {
+				if t := vc05replaceAt(n, p.idx, c); fails(t) {
+					n, progressed = t, true
+					break search
+				}
+			}
+		}
+		if !progressed {
+			break
+		}
+	}
+	return n
+}
+
+// vc05treeName renders a (small) tree as a category tag: leaves that were
+// replaceable by a plain term are "term", operators are named, operands follow "of".
+func vc05treeName(n *vc05node) string {
+	switch {
+	case n.kind == vc05Leaf:
+		if vc05isGeneric(n) {
+			return "term"
+		}
+		return n.name
+	case n.r == nil:
+		return vc05opName(n) + "-of-" + vc05treeName(n.l)
+	}
+	return vc05opName(n) + "-of-" + vc05treeName(n.l) + "-and-" + vc05treeName(n.r)
+}
+
+// vc05shape is the two-level operator skeleton with leaf forms (cache key for classifications).
+func vc05shape(n *vc05node) string {
+	one := func(c *vc05node) string {
+		if c == nil {
+			return ""
+		}
+		if c.kind == vc05Leaf {
+			return c.form
+		}
+		return vc05opName(c)
+	}
+	if n.kind == vc05Leaf {
+		return n.name
+	}
+	return vc05opName(n) + "(" + one(n.l) + "," + one(n.r) + ")"
+}
+
 type vc05unop struct {
 	kind int
 	arg  string
@@ -1056,8 +1159,11 @@ func vc05msgLess(a, b vc05msg) bool {
 }
 
 func (c *vc05cat) add(m vc05msg) {
-	for _, o := range c.best {
-		if o == m {
+	for i, o := range c.best {
+		if o.input == m.input { // one message per input
+			if vc05msgLess(m, o) {
+				c.best[i] = m
+			}
 			return
 		}
 	}
@@ -1145,11 +1251,12 @@ func vc05getenv() *vc05env {
 	// collector runs continuously and the 16 workers mostly wait for it
 	e.oldGC = debug.SetGCPercent(-1)
 	e.oldLimit = debug.SetMemoryLimit(3 << 30)
-	// safety net only: the domains are sized to finish well before it
+	// safety net only (go test itself gives up after 10 minutes): the domains are sized
+	// for about 60 CPU-seconds (quick) and 25 CPU-minutes (thorough)
 	if e.thorough {
-		e.deadline = time.Now().Add(225 * time.Second)
+		e.deadline = time.Now().Add(8 * time.Minute)
 	} else {
-		e.deadline = time.Now().Add(18 * time.Second)
+		e.deadline = time.Now().Add(90 * time.Second)
 	}
 	return e
 }
